@@ -155,6 +155,7 @@ type Machine struct {
 	// selftest (the repository's own tests under the interpreter)
 	entryArgs     func() []value
 	clockTicks    bool
+	fmtExact      bool // fmt model: the verbs in use do not print type names
 	testFailWhere string
 	clock         uint64
 	baseOverrides map[string]value
